@@ -413,6 +413,9 @@ Proc(e) ==
             IF ~known THEN base ELSE
             [base EXCEPT !.st = IF tracked THEN Set(st, m, NoneS) ELSE st,
                          !.fails = OutcomeFails(e) \cup (IF e.outcome = "ok" \/ aux.fault THEN {} ELSE {"C14.put_from_iter"})]
+      [] e.ev = "iter_abandon" ->
+            \* a traversal given up after a few steps: a read-only call like any other
+            [base EXCEPT !.fails = OutcomeFails(e)]
       [] e.ev = "includes" ->
             IF ~known THEN base ELSE
             [base EXCEPT !.fails = OutcomeFails(e) \cup
